@@ -76,6 +76,10 @@ Definition safety_b (acc : bool) (obs : auth_out) : bool :=
   | _ => match bound obs with None => true | Some _ => false end
   end.
 
+(** (e): without TLS no request reaches the backend and nothing is granted *)
+Definition no_tls_b (tls : bool) (obs : auth_out) : bool :=
+  tls || (is_nil (sent obs) && negb (reply_eqb (answer obs) R_OK)).
+
 (** LOGIN over a connection *)
 Record wcase := mk_wcase { wc_tls : bool; wc_d : str; wc_tag : str; wc_line : str; wc_b : outcome;
   wc_intended : option (astring_form * astring_form * str * str); wc_obs : auth_out }.
@@ -89,7 +93,7 @@ Definition wcase_eval (c : wcase) : res :=
    match wc_intended c with
    | Some (_, _, u, p) => imap_spec_b (wc_d c) u p (accepted (wc_b c)) (wc_obs c)
    | None => safety_b (accepted (wc_b c)) (wc_obs c)
-   end,
+   end && no_tls_b (wc_tls c) (wc_obs c),
    match wc_intended c with
    | Some (fu, fp, u, p) =>
        match classify_login fu fp u p with
@@ -113,7 +117,7 @@ Definition pcase_eval (c : pcase) : res :=
    match pc_intended c with
    | Some (u, p) => imap_spec_b (pc_d c) u p (accepted (pc_b c)) (pc_obs c)
    | None => safety_b (accepted (pc_b c)) (pc_obs c)
-   end,
+   end && no_tls_b (pc_tls c) (pc_obs c),
    match pc_intended c with
    | Some (u, p) => finding_code (classify_cred (pc_d c) u p)
    | None => 0
